@@ -63,10 +63,13 @@ def unit_env():
     return units, secs
 
 
-def event_of(res, zl=()):
-    """what Trace_Date needs from one rv-eval result; zl: the zone-naming literals of the query with their offsets"""
+def event_of(res, zl=(), clock=None):
+    """what Trace_Date needs from one rv-eval result; zl: the zone-naming literals of the query with their offsets;
+    clock: the UTC time [y, m, d, h, mi, s] the context clock was set to for this query (None: the system time)"""
     ev = evalkit.slim_event(res, keep_parts=False)
     ev["zl"] = list(zl)
+    if clock is not None:
+        ev["clock"] = list(clock)
     if "crash" not in res:
         o = res["obs"]
         if o.get("t") == "date":
@@ -80,10 +83,12 @@ def event_of(res, zl=()):
 _lit_re = re.compile(r"#([^#]*)#")
 
 
-def run_queries(texts, shards, tag):
+def run_queries(texts, shards, tag, clocks=None):
     """Runs the queries (with the date value behind each reply) and, before that, every distinct literal alone: a
     literal that names a zone gets the UTC offset the code reports for it (the tz database is an input of the
-    specification, not a part of it).  Returns (results, events)."""
+    specification, not a part of it).  clocks (optional, one per text): the UTC time the context clock is set to
+    for that query; such a run is ONE sequence on ONE long-lived context, in the order given.
+    Returns (results, events)."""
     lits = sorted({m for t in texts for m in _lit_re.findall(t)})
     lres = evalkit.run_eval([{"qs": "#%s#" % l, "dateval": True} for l in lits], ctx="bundled", timeout_ms=5000, shards=shards, tag=tag + "l")
     zoff = {}
@@ -91,17 +96,23 @@ def run_queries(texts, shards, tag):
         dv = r.get("dateval") if "crash" not in r else None
         if dv and dv.get("variant") == "tz":
             zoff[l] = dv["off"]
-    res = evalkit.run_eval([{"qs": t, "dateval": True} for t in texts], ctx="bundled", timeout_ms=5000, shards=shards, tag=tag)
+    if clocks is not None:
+        res = evalkit.run_eval([{"qs": t, "dateval": True, "clock": list(c)} for t, c in zip(texts, clocks)], ctx="bundled",
+                               timeout_ms=20000, shards=1, tag=tag)
+        if any(r.get("bad_job") for r in res):
+            raise vlib.ToolError("rv-eval refused a clock setting")
+    else:
+        res = evalkit.run_eval([{"qs": t, "dateval": True} for t in texts], ctx="bundled", timeout_ms=5000, shards=shards, tag=tag)
     # a time-out is believed only when the query, run alone with a generous limit, times out again
-    slow = [i for i, r in enumerate(res) if r.get("crash") == "timeout"]
+    slow = [i for i, r in enumerate(res) if r.get("crash") == "timeout"] if clocks is None else []
     if slow:
         again = evalkit.run_eval([{"qs": texts[i], "dateval": True} for i in slow], ctx="bundled", timeout_ms=60000, shards=1, tag=tag + "s")
         for i, r in zip(slow, again):
             res[i] = r
     events = []
-    for t, r in zip(texts, res):
+    for i, (t, r) in enumerate(zip(texts, res)):
         zl = [{"lit": [ord(c) for c in l], "off": zoff[l]} for l in dict.fromkeys(_lit_re.findall(t)) if l in zoff]
-        events.append(event_of(r, zl))
+        events.append(event_of(r, zl, clocks[i] if clocks is not None else None))
     return res, events
 
 
@@ -141,7 +152,7 @@ def gen(tag, mode, seed, k=1, forms_per=1, years=(2000,), days=((1, 1),), times=
         writers=("iso",), durs=("1 s",), anchors=("2000-01-01",), convoffs=("+00:00",), zones=("UTC",),
         workers=4, timeout=1500, coverage=False):
     """Runs MC_DateGen; returns (cases [{q: text, mut: name}], TlcResult)."""
-    mod = "Gen_%s" % tag
+    mod = "Gen_%s_%d" % (tag, os.getpid())      # private to the process: concurrent C14 runs must not share the file
     with open(os.path.join(vlib.SPEC, mod + ".tla"), "w") as f:
         f.write("---- MODULE %s ----\nEXTENDS MC_DateGen\n" % mod)
         f.write("G_Years == %s\n" % _set(str(y) for y in years))
@@ -170,6 +181,9 @@ def gen(tag, mode, seed, k=1, forms_per=1, years=(2000,), days=((1, 1),), times=
                 pass
     vlib.require_ok(r, "MC_DateGen " + tag)
     cases = [{"q": "".join(chr(c) for c in o["q"]), "mut": o["mut"]} for o in vlib.tagged_json(r, "CASE")]
+    if mode == "partial":
+        # a literal without a year (or without any date) is written alike from many instants: keep each text once
+        cases = list({c["q"]: c for c in cases}.values())
     return cases, r
 
 
@@ -242,15 +256,27 @@ ANCHORS = ["0001-01-01 00:00:00", "1970-01-01T00:00:00 +00:00", "2000-02-29 23:5
            "December 31, 9999 11:59:59.999999999 pm +14:00", "2016 dec 31 23:59:59 +05:30", "Fri Oct 15 00:00:00 1582",
            "2000-07-01 12:00:00.5 Europe/London", "Dec 31 1969 16:00:00 US/Pacific", "1850-06-15T12:00:00 Asia/Kolkata"]
 # regression seeds (DESIGN.md section 6: F7, F8, F9) and forms the generator does not write; each is judged by the specification
+# round 3: an incomplete date / a time only (the written fields bind), +hhmm minutes, second 60 in arithmetic
+SEEDS_R3 = ["#2020-W05#", "#2020-W05 10:00#", "#2020-W53 23:59:59 -04:00#", "#2021-W53 10:00#", "#--03-15#", "#--03-15 10:30#",
+            "#--02-29 10:30 +05:30#", "#--02-30 10:30#", "#jan 5 10:00#", "#January 5 10:00 pm US/Pacific#", "#10:30#",
+            "#11:59:59.999999999 pm +14:00#", "#2020-01-01 10:00 +0199#", "#2020-01-01 10:00 -0060#", "#2020-01-01 10:00 +0159#",
+            "#2016-12-31 23:59:60#", "#2019-06-15 12:00:60#", "(#2016-12-31 23:59:60# + 1 s) - #2016-12-31 23:59:60#",
+            "(#2019-06-15 12:00:60# + 1 s) - #2019-06-15 12:00:60#", "#2016-12-31 23:59:60# + 1 s", "#2016-12-31 23:59:60.5 -04:00# + 0.5 s",
+            "#2017-01-01 00:00:00# - #2016-12-31 23:59:60#", "(#2016-12-31 23:59:60# - 1 ns) + 1 ns", "#2016-12-31 23:59:60# -> +05:30"]
 SEEDS = ["#2000-01-01 00:00:00.1234567890#", "#2000-01-01# -> +99:00", "(#2000-01-01# + 0.0005 s) - #2000-01-01#",
          "1 s + #2000-01-01#", "#2000-01-01# + 1 m", "#2000-01-01# + 1", "#2000-01-01# + #2000-01-01#",
          "#2000-01-01# -> UTC", "#2000-07-01 12:00 Europe/London# -> \"Asia/Kolkata\"", "#jan 1, 1 bc#", "#March 15, 44 BC#",
          "#-0043-03-15#", "#0000-02-29#", "#2000-01-01 00:00:00.000000001# - #1999-12-31 23:59:59.999999999#",
          "#2000-03-01# - #2000-02-28#", "#1900-03-01# - #1900-02-28#", "#2100-03-01# - #2100-02-28#",
-         "#2000-01-01 00:00 +0090#", "#2000-01-01T00:00:00+05:30#", "#2000-01-01# -> +05:60"]
+         "#2000-01-01 00:00 +0090#", "#2000-01-01T00:00:00+05:30#", "#2000-01-01# -> +05:60"] + SEEDS_R3
+# the clock leg: UTC times the context clock is set to, in this order (forwards by hours / a day / years, and backwards)
+CLOCKS = [(2016, 8, 2, 19, 33, 19), (2016, 8, 3, 12, 0, 0), (2016, 8, 2, 23, 59, 59), (2020, 2, 29, 12, 0, 0),
+          (2021, 3, 1, 0, 0, 0), (1999, 12, 31, 23, 59, 59), (2038, 1, 19, 3, 14, 8)]
+CLOCK_ANCHOR = "2016-08-02 10:30:00 +00:00"
 
 GEN_ACTIONS = {"grid": ["PickDate", "PickTime", "PickOffset", "PickWriter", "PickForm"],
                "bad": ["PickDate", "PickTime", "PickOffset", "PickMutation", "BadForm"],
+               "partial": ["PickDate", "PickTime", "PickOffset", "PickPartial", "BadForm"],
                "dur": ["DurForm"]}
 
 
@@ -266,7 +292,10 @@ def selftests(run):
     if '<<"DATETIME_SELFTEST", TRUE, TRUE, TRUE, TRUE, TRUE, TRUE>>' not in r.stdout:
         log(r.stdout[-2000:])
         raise vlib.ToolError("DateTime self-test did not report TRUE x 6")
-    run.note("datetime_selftest", "calendar laws on 19 years, anchor days, instants, literal readings: all TRUE")
+    if '<<"DATETIME_SELFTEST2", TRUE, TRUE>>' not in r.stdout:
+        log(r.stdout[-2000:])
+        raise vlib.ToolError("DateTime self-test (ISO weeks, partial readings) did not report TRUE x 2")
+    run.note("datetime_selftest", "calendar laws on 19 years, anchor days, instants, literal readings, ISO weeks, partial readings: all TRUE")
     r = vlib.tlc("MC_BigNum", "MC_BigNum", workers=1, timeout=600, tag="c14bn")
     vlib.require_ok(r, "MC_BigNum")
     if '<<"BIGNUM_SELFTEST", TRUE, TRUE, TRUE>>' not in r.stdout:
@@ -276,16 +305,18 @@ def selftests(run):
 
 SPEC_ALLOWS = ("the instant / duration DateTime.tla determines for the query (proleptic Gregorian calendar, exact rational "
                "seconds), an error where a literal matches no documented pattern or denotes nothing or the offset is 24 h "
-               "or more; an error is also admissible near the edge of the supported range")
+               "or more; an error is also admissible near the edge of the supported range; a literal with an incomplete date: "
+               "an error or an instant that has the written fields at the written offset; a time-only literal: that time on the "
+               "day of the context clock")
 
 
 _rejects = []      # every rejected line of this run (written to work/c14-rejects.ndjson for triage; not an output of the check)
 
 
-def decide(run, cases, leg, units, shards, min_per_shard=150):
+def decide(run, cases, leg, units, shards, min_per_shard=150, clocks=None):
     """cases: [{q, mut}] -> runs, judges, reports.  Returns per-tag counts."""
     t0 = time.time()
-    res, events = run_queries([c["q"] for c in cases], shards, "c14" + leg)
+    res, events = run_queries([c["q"] for c in cases], shards, "c14" + leg, clocks=clocks)
     t1 = time.time()
     verdicts, st = judge(events, units, shards, "c14j" + leg, min_per_shard=min_per_shard)
     run.cov["states"] += st["distinct"]
@@ -304,14 +335,20 @@ def decide(run, cases, leg, units, shards, min_per_shard=150):
                 run.drift_note("Grammar", "the code's AST differs from the specification's parse of %r" % c["q"])
         if "SILENT" in v or "UNSUPPORTED" in v:
             continue
-        run.nontrivial(c["q"])
+        run.nontrivial(c["q"] if clocks is None else "%s @ %s" % (c["q"], "-".join(map(str, clocks[i]))))
         if "REJECT" in v or "CRASH" in v:
             ob = obs_brief(res[i])
             _rejects.append({"leg": leg, "q": c["q"], "mut": c.get("mut", "none"), "verdict": sorted(v), "obs": ob})
-            run.violation({"engine": "date", "leg": leg, "q": c["q"], "mut": c.get("mut", "none"),
-                           "obs_kind": "crash" if "crash" in res[i] else res[i]["obs"].get("t"),
-                           "verdict": "CRASH" if "CRASH" in v else "REJECT"},
-                          SPEC_ALLOWS, ob, "date")
+            case = {"engine": "date", "leg": leg, "q": c["q"], "mut": c.get("mut", "none"),
+                    "obs_kind": "crash" if "crash" in res[i] else res[i]["obs"].get("t"),
+                    "verdict": "CRASH" if "CRASH" in v else "REJECT"}
+            if clocks is not None:
+                # the sequence up to here: the same context, the clock settings before this one matter
+                case["clock"] = list(clocks[i])
+                mine = set(_lit_re.findall(c["q"])) - {CLOCK_ANCHOR}
+                case["history"] = [{"q": cases[j]["q"], "clock": list(clocks[j])} for j in range(i)
+                                   if cases[j]["q"] == c["q"] or set(_lit_re.findall(cases[j]["q"])) & mine]
+            run.violation(case, SPEC_ALLOWS, ob, "date")
     log("[C14] leg %s: %d queries, eval %.1fs, judge %.1fs, verdicts %s" % (leg, len(cases), t1 - t0, time.time() - t1, counts))
     return counts
 
@@ -323,15 +360,24 @@ def run(tier, seed):
                        "day incl. 23:59:59.999999999) x offsets (none, +00:00, -04:00, +05:30, +14:00, two named zones) x every "
                        "documented literal pattern (10 writers) x query forms (literal alone, (d+t)-d, (d-t)+t, d+t, d-t, d1-d2, "
                        "-> +hh:mm, -> \"Zone\"), durations 1 ns .. i64::MAX/1000 s x sign x 17 unit spellings, and literals with one "
-                       "field out of range; the quick tier keeps the literals whose hash falls on one residue (shifted by the seed). "
-                       "non-trivial = distinct query text whose reply the specification determines (not silent).")
+                       "field out of range (a soft one - second 60, minute 60, hour 24, wrong weekday - also inside the arithmetic forms); "
+                       "literals that write a time only or an incomplete date (year + ISO week, month + day without year; 9 writers) "
+                       "judged by their written fields; one long-lived context whose clock is set to 5 (thorough: 11) UTC times in "
+                       "sequence, the same literals (time-only, incomplete, full) and `now` evaluated again under each setting; "
+                       "the quick tier keeps the literals whose hash falls on one residue (shifted by the seed). "
+                       "non-trivial = distinct query text (clock leg: text and clock setting) whose reply the specification determines (not silent).")
     run.assumptions += ["harness trusted for: string <-> code points, num-bigint <-> base-4096 limbs; the driver extracts the digits of the "
                         "reply's RFC 3339 string (no calendar arithmetic outside the specification)",
                         "the values of the time units (s, ms, ..., year) are looked up in the code's own database and given to the judge: "
                         "the unit database is not under test here",
                         "the tz database is not specified: for named zones the UTC offset is taken from the reply (RFC 3339 rounds it to "
                         "minutes, so a reply in a named zone fixes its instant to +-30 s)",
-                        "results beyond +-200 000 years or durations beyond i64::MAX/1000 s: an error or the exact result is accepted"]
+                        "results beyond +-200 000 years or durations beyond i64::MAX/1000 s: an error or the exact result is accepted",
+                        "clock leg: the harness sets the context clock (Context::set_time) from the UTC fields the driver chose and "
+                        "evaluates with Context::eval_query (rink_core::eval would put the clock back to the system time); without a set "
+                        "clock a time-only literal is bound to its written time of day and offset only",
+                        "a time-only literal in a named zone is not generated (the zone's gaps are not specified); when one is judged, its "
+                        "local day may be the clock's UTC day or a neighbour"]
     vlib.build_harness()
     selftests(run)
     units, secs = unit_env()
@@ -387,21 +433,64 @@ def run(tier, seed):
     run.sample({"leg": "dur", "q": dur[len(dur) // 2]["q"]})
 
     # G3: literals with one field out of range
-    bad, r3 = gen("c14bad", "bad", seed, years=[1900, 2000, 9999] if thorough else [rng.choice([1900, 2100, 1969]), 2000],
-                  days=[(1, 31), (12, 1)] if thorough else [(1, 31)],
-                  times=[(23, 59, 59, "5"), (0, 0, 0, "")] if thorough else [(23, 59, 59, "5")],
-                  offsets=[(0, 0), (1, 19800)], writers=WRITERS, workers=4, timeout=1200, coverage=True)
+    # (a soft literal - second 60, minute 60, hour 24, a wrong weekday - also inside the arithmetic forms: refused, or the laws hold)
+    bad_durs = ["1 s", "-1 s", "1 ns", "0.5 s", "86400 s", "1 min", "-1 ns", "2 s", "1 hour"] + random_duration_texts(secs, rng, 6)
+    bad, r3 = gen("c14bad", "bad", seed, forms_per=4 if thorough else 1,
+                  years=[1900, 2000, 9999] if thorough else [rng.choice([1900, 2100, 1969, 2016]), 2000],
+                  days=[(1, 31), (12, 1), (12, 31)] if thorough else [rng.choice([(1, 31), (12, 31)])],
+                  times=[(23, 59, 59, "5"), (0, 0, 0, ""), (12, 0, 59, "")] if thorough else [(23, 59, 59, "5")],
+                  offsets=[(0, 0), (1, 19800)], writers=WRITERS, durs=bad_durs, anchors=ANCHORS, workers=4, timeout=1200, coverage=True)
     vacuity_gate(r3, "bad")
     run.add_tlc(r3, "MC_DateGen bad")
     c3 = decide(run, bad, "bad", units, shards)
     run.sample({"leg": "bad", "q": bad[len(bad) // 2]["q"], "mutation": bad[len(bad) // 2]["mut"]})
 
+    # G4: literals that write a time only or an incomplete date (year and ISO week, month and day without a year):
+    # never an instant outside what the written fields allow
+    py = sorted({2020, 2016} | set(rng.sample(range(1, 10000), 6 if thorough else 2)))
+    pd = [(1, 1), (12, 31), (2, 29), (3, 15)] + [(rng.randint(1, 12), rng.randint(1, 28)) for _ in range(4 if thorough else 1)]
+    pt = [(0, 0, 0, ""), (10, 30, 0, ""), (23, 59, 59, "999999999")] + ([(12, 0, 1, "5"), (0, 59, 0, "")] if thorough else [])
+    po = [(0, 0), (1, 0), (1, -14400), (1, 50400), (2, 2)] + ([(1, 19800), (1, -43200), (2, 4)] if thorough else [])
+    part, r4 = gen("c14part", "partial", seed, years=py, days=sorted(set(pd)), times=pt, offsets=po, zones=ZONES, workers=4,
+                   timeout=1200, coverage=True)
+    vacuity_gate(r4, "partial")
+    run.add_tlc(r4, "MC_DateGen partial")
+    c5 = decide(run, part, "partial", units, shards)
+    run.sample({"leg": "partial", "q": part[len(part) // 2]["q"], "writer": part[len(part) // 2]["mut"]})
+
+    # G5: the context clock.  ONE long-lived context; the clock (Context::set_time) is moved by hours, a day, years,
+    # forwards and backwards, and under every setting the same literals are evaluated again: a full date literal denotes
+    # the same instant whatever the clock, a time-only literal that time on the clock's day, `now` the clock.
+    tod = sorted({c["q"][1:-1] for c in part if c["mut"] in ("tod24", "tod12")})
+    oth = sorted({c["q"][1:-1] for c in part if c["mut"] not in ("tod24", "tod12")})
+    full = sorted({m for c in rgrid for m in _lit_re.findall(c["q"])[:1]})
+    lits = (rng.sample(tod, min(len(tod), 40 if thorough else 14)) + rng.sample(oth, min(len(oth), 12 if thorough else 4))
+            + rng.sample(full, min(len(full), 30 if thorough else 8)) + ANCHORS[:3] + ["2016-12-31 23:59:60", "10:30 +00:00"])
+    lits = list(dict.fromkeys(lits))
+    clocks = list(CLOCKS if thorough else CLOCKS[:4])
+    for _ in range(4 if thorough else 1):
+        clocks.append((rng.randint(1971, 2399), rng.randint(1, 12), rng.randint(1, 28), rng.randint(0, 23), rng.randint(0, 59), rng.randint(0, 59)))
+    cq, ck = [], []
+    for c in clocks:
+        for t in ["now", "now + 1 day", "now - #%s#" % CLOCK_ANCHOR]:
+            cq.append(t)
+            ck.append(c)
+        for l in lits:
+            for t in ("#%s#" % l, "now - #%s#" % l, "#%s# - #%s#" % (l, CLOCK_ANCHOR)):
+                cq.append(t)
+                ck.append(c)
+    c6 = decide(run, [{"q": q, "mut": "clock"} for q in cq], "clock", units, shards, clocks=ck)
+    run.sample({"leg": "clock", "q": cq[len(cq) // 2], "clock": list(ck[len(cq) // 2])})
+    run.note("clock_leg", {"literals": len(lits), "time_only": sum(1 for l in lits if l in set(tod)), "clock_settings": [list(c) for c in clocks]})
+    if c6.get("SILENT", 0) + c6.get("UNSUPPORTED", 0) > len(cq) // 3:
+        raise vlib.ToolError("leg clock: the specification was silent on more than a third of the queries")
+
     # regression seeds
     c4 = decide(run, [{"q": q, "mut": "none"} for q in SEEDS], "seeds", units, 1, min_per_shard=1000)
     run.sample({"leg": "seeds", "q": SEEDS[2]})
-    run.note("verdict_counts", {"grid": c1, "rand": c1r, "dur": c2, "bad": c3, "seeds": c4})
-    for leg, c in (("grid", c1), ("rand", c1r), ("dur", c2), ("bad", c3)):
-        n = {"grid": ngrid, "rand": len(rgrid), "dur": len(dur), "bad": len(bad)}[leg]
+    run.note("verdict_counts", {"grid": c1, "rand": c1r, "dur": c2, "bad": c3, "partial": c5, "clock": c6, "seeds": c4})
+    for leg, c in (("grid", c1), ("rand", c1r), ("dur", c2), ("bad", c3), ("partial", c5)):
+        n = {"grid": ngrid, "rand": len(rgrid), "dur": len(dur), "bad": len(bad), "partial": len(part)}[leg]
         if c.get("SILENT", 0) + c.get("UNSUPPORTED", 0) > n // 2:
             raise vlib.ToolError("leg %s: the specification was silent on more than half of the generated queries" % leg)
 
@@ -421,6 +510,20 @@ def run(tier, seed):
         if not all("REJECT" in verdicts.get(i, set()) for i in range(3)):
             raise vlib.ToolError("self-check: a corrupted observation was not rejected by Trace_Date")
         run.note("selfcheck_corrupted_observation_rejected", True)
+        # the clock binding: the reply to a time-only literal is accepted under the clock it was made with and rejected
+        # under a clock one day later; without a clock it is rejected when its time of day is changed
+        _, cevs = run_queries(["#10:30 +00:00#", "#10:30 +00:00#", "#11:59:59.5 pm -04:00#"], 1, "c14selfc",
+                              clocks=[CLOCKS[0], CLOCKS[1], CLOCKS[1]])
+        if all(e["obs"].get("t") == "date" for e in cevs):
+            good, _ = judge([json.loads(json.dumps(e)) for e in cevs], units, 1, "c14selfcg")
+            if not any(good.get(i, set()) & {"REJECT", "CRASH", "SILENT"} for i in range(3)):
+                cevs[1]["clock"] = list(CLOCKS[3])
+                del cevs[2]["clock"]
+                cevs[2]["obs"]["rfc"][4] = cevs[2]["obs"]["fields"][4] = 58
+                verdicts, _ = judge(cevs, units, 1, "c14selfcj")
+                if "REJECT" in verdicts.get(0, set()) or not all("REJECT" in verdicts.get(i, set()) for i in (1, 2)):
+                    raise vlib.ToolError("self-check: the clock binding of Trace_Date did not reject a reply made under another clock")
+                run.note("selfcheck_other_clock_rejected", True)
     else:
         # the unchanged observations are themselves not accepted (the code is broken there): the violations above say so
         run.note("selfcheck_corrupted_observation_rejected", "skipped: the uncorrupted replies are already rejected")
@@ -435,7 +538,15 @@ def replay(path, seed):
     q = body["case"]["q"]
     vlib.build_harness()
     units, _ = unit_env()
-    res, evs = run_queries([q], 1, "c14r")
+    if "clock" in body["case"]:
+        # the clock leg: the earlier queries of the sequence that share a literal with this one, then the query itself
+        hist = body["case"].get("history", [])
+        texts = [h["q"] for h in hist] + [q]
+        res, evs = run_queries(texts, 1, "c14r", clocks=[h["clock"] for h in hist] + [body["case"]["clock"]])
+        res, evs = res[-1:], evs[-1:]
+        log("clock: %s after %d earlier queries on the same context" % (body["case"]["clock"], len(hist)))
+    else:
+        res, evs = run_queries([q], 1, "c14r")
     verdicts, _ = judge(evs, units, 1, "c14rj")
     v = verdicts.get(0, {"ACCEPT"})
     log("query: %r\nobserved: %s\nverdict: %s" % (q, json.dumps(obs_brief(res[0]))[:600], sorted(v)))
@@ -452,10 +563,14 @@ def random_duration_texts(secs, rng, n):
 
 
 def probe(texts):
-    """development helper: run and judge a few texts, print everything"""
+    """development helper: run and judge a few texts (`text @ y-m-d-h-mi-s` sets the clock), print everything"""
     vlib.build_harness()
     units, _ = unit_env()
-    res, evs = run_queries(texts, 2, "c14p")
+    clocks = None
+    if all(" @ " in t for t in texts):
+        clocks = [tuple(int(x) for x in t.split(" @ ")[1].split("-")) for t in texts]
+        texts = [t.split(" @ ")[0] for t in texts]
+    res, evs = run_queries(texts, 2, "c14p", clocks=clocks)
     verdicts, st = judge(evs, units, 4, "c14pj", min_per_shard=20)
     for i, t in enumerate(texts):
         print(t, "=>", sorted(verdicts.get(i, {"ACCEPT"})), json.dumps(obs_brief(res[i]))[:160])
